@@ -1,6 +1,7 @@
 //@@ property: C04
 //@@ crate: db
 //@@ mount: pocket-db/src/event_store.rs
+//@@ also: es_helper.rs@pocket-db/src/event_store.rs
 // EventStore-level harnesses over the mmap-append / std::fs environment model
 // (DESIGN.md 2.3).  One step of `store_event` from an arbitrary valid file state.
 use super::*;
@@ -9,42 +10,57 @@ include!("common_db.rs");
 /// Pre-state: an existing file of length `l` whose end marker is `e`; bytes in [8, e)
 /// are arbitrary (whatever earlier history wrote), bytes at and beyond `e` are zero.
 fn prestate(l: usize, e: usize) {
-    let f = mmap_append::verif::file();
-    f.exists = true;
-    f.len = l;
-    let eb = e.to_le_bytes();
-    let mut i = 0;
-    while i < 8 {
-        f.data[i] = eb[i];
-        i += 1;
-    }
-    i = 8;
+    mmap_append::verif::set_file(true, l);
+    let d = mmap_append::verif::data();
+    d[0] = e as u8;
+    d[1] = (e >> 8) as u8;
+    let mut i = 8;
     while i < e {
-        f.data[i] = kani::any();
+        d[i] = kani::any();
         i += 1;
     }
 }
 
-/// an arbitrary event image of exactly `S` bytes (arbitrary contents, consistent length prefix)
+/// an arbitrary event image of exactly `S` bytes (arbitrary contents, consistent length prefix).
+/// The `&Event` view is made with the same pointer cast as `Event::from_inner`: taking it out
+/// of `Event::delineate`'s niche-encoded `Result` would make its length a non-constant for the
+/// symbolic executor, and every later bounds test would fork.
 fn any_event<const S: usize>(buf: &mut [u8; S]) -> &Event {
     let lb = (S as u32).to_ne_bytes();
     buf[0] = lb[0];
     buf[1] = lb[1];
     buf[2] = lb[2];
     buf[3] = lb[3];
-    ok!(unsafe { Event::delineate(&buf[..]) })
+    let s: &[u8] = &buf[..];
+    unsafe { &*(s as *const [u8] as *const Event) }
+}
+
+/// `EventStore::new` for an existing file of known length, field by field (same reason:
+/// keeps the struct out of a `Result`).  `EventStore::new` itself is exercised by the
+/// reopen step of every instance and by c04_create_fresh / the C13 creation harnesses.
+fn open_existing(l: usize) -> EventStore {
+    let event_map_file = unsafe { <std::fs::File as std::os::unix::io::FromRawFd>::from_raw_fd(1000) };
+    let event_map = match unsafe { MmapAppend::new(&event_map_file, false) } {
+        Ok(m) => m,
+        Err(e) => {
+            core::mem::forget(e);
+            panic!("model map")
+        }
+    };
+    EventStore { event_map_file, event_map_file_len: AtomicUsize::new(l), event_map }
 }
 
 /// one store from pre-state (l, e) of an arbitrary S-byte event
-fn one_store<const S: usize>(l: usize, e: usize, grows: bool) {
+fn one_store<const S: usize>(l: usize, e: usize, grows: bool, reopen: bool) {
     prestate(l, e);
-    let mut before = [0u8; 128];
-    let mut i = 8;
-    while i < e {
-        before[i] = mmap_append::verif::file().data[i];
-        i += 1;
+    // the earlier bytes, remembered before the call
+    let mut before = [0u8; 112];
+    let mut j = 8;
+    while j < e {
+        before[j] = mmap_append::verif::data()[j];
+        j += 1;
     }
-    let store = ok!(EventStore::new("/s/event.map"));
+    let store = open_existing(l);
     assert!(store.read_event_map_end() == e);
     let mut buf: [u8; S] = kani::any();
     let ev = any_event::<S>(&mut buf);
@@ -55,9 +71,9 @@ fn one_store<const S: usize>(l: usize, e: usize, grows: bool) {
     // new end marker = offset + len, inside the (possibly enlarged) file
     let end = store.read_event_map_end();
     assert!(end == off + S);
-    let flen = mmap_append::verif::file().len;
+    let flen = mmap_append::verif::file_len();
     assert!(end <= flen);
-    assert!(flen == if grows { l + 2048 } else { l });
+    assert!(flen == if grows { l + 256 } else { l });
     // read back byte-identical
     let got = ok!(unsafe { store.get_event_by_offset(off) });
     assert!(got.as_bytes().len() == S);
@@ -65,34 +81,36 @@ fn one_store<const S: usize>(l: usize, e: usize, grows: bool) {
     kani::assume(k < S);
     kani::cover!(k == S - 1);
     assert!(got.as_bytes()[k] == buf[k]);
-    // every byte below the old end is unchanged, in the file and in the mapping
-    let j: usize = kani::any();
-    kani::assume(j >= 8 && j < e);
-    assert!(mmap_append::verif::file().data[j] == before[j]);
-    assert!(store.event_map[j] == before[j]);
-    // the bytes are durable in the file as well
-    assert!(mmap_append::verif::file().data[off + k] == buf[k]);
-    // reopen: same end, same bytes
+    // every byte below the old end is unchanged
+    j = 8;
+    while j < e {
+        assert!(mmap_append::verif::data()[j] == before[j]);
+        j += 1;
+    }
     core::mem::forget(store);
-    let again = ok!(EventStore::new("/s/event.map"));
-    assert!(again.read_event_map_end() == end);
-    let got2 = ok!(unsafe { again.get_event_by_offset(off) });
-    assert!(got2.as_bytes()[k] == buf[k]);
-    core::mem::forget(again);
+    if reopen {
+        // reopen (the real EventStore::new on what is in the file): same end, same bytes
+        let again = ok!(EventStore::new("/s/event.map"));
+        assert!(again.read_event_map_end() == end);
+        let got2 = ok!(unsafe { again.get_event_by_offset(off) });
+        assert!(got2.as_bytes()[k] == buf[k]);
+        core::mem::forget(again);
+    }
 }
 
 macro_rules! store_instance {
     ($name:ident, $S:expr, $l:expr, $e:expr, $grows:expr) => {
         #[kani::proof]
-        #[kani::unwind(20)]
+        #[kani::unwind(4)]
         #[kani::stub(core::panic::Location::caller, stub_caller)]
         #[kani::stub(<std::io::Error as std::fmt::Display>::fmt, stub_io_error_fmt)]
+        #[kani::stub(<std::io::Error as std::string::ToString>::to_string, stub_io_to_string)]
         #[kani::stub(std::fs::File::set_len, stub_set_len)]
         #[kani::stub(std::fs::OpenOptions::open, stub_open)]
         #[kani::stub(std::fs::File::metadata, stub_metadata)]
         #[kani::stub(std::fs::Metadata::len, stub_metadata_len)]
         fn $name() {
-            one_store::<$S>($l, $e, $grows);
+            one_store::<$S>($l, $e, $grows, false);
         }
     };
 }
@@ -103,7 +121,8 @@ macro_rules! store_instance {
 //@ tier: quick
 //@ timeout: 1200
 //@ mem: 12
-//@ unwindset: mmap_append=170; one_store=110; prestate=110
+//@ unwindset: mmap_append=170; one_store=110; prestate=110; memcmp.0=20
+//@ cbmc: --max-field-sensitivity-array-size 800
 //@ encodes: EventStore::new, EventStore::store_event, EventStore::get_event_by_offset, EventStore::read_event_map_end
 //@ bounds: one store_event from an existing 256-byte file whose end marker e has the residue named by the harness (r = e mod 8) with arbitrary bytes in [8, e) and an arbitrary event image of 152..160 bytes; fits / ends exactly at the file end / one byte short so the file grows by one chunk. Offset = e rounded up to 8, end = offset+len <= file length, read-back byte-identical (mapping and file), bytes below e unchanged, reopen gives the same end and bytes
 //@ outside: e and the file length are concrete per instance (the code uses e only through e mod 8 and e+pad+len > L: that the instances partition the cases is an argument by reading); events larger than 160 bytes; OS-level durability
@@ -119,7 +138,8 @@ store_instance!(c04_store_r0_grow, 153, 256, 104, true);
 //@ tier: thorough
 //@ timeout: 1200
 //@ mem: 12
-//@ unwindset: mmap_append=170; one_store=110; prestate=110
+//@ unwindset: mmap_append=170; one_store=110; prestate=110; memcmp.0=20
+//@ cbmc: --max-field-sensitivity-array-size 800
 //@ encodes: EventStore::new, EventStore::store_event, EventStore::get_event_by_offset
 //@ bounds: as the quick instances, remaining residues
 store_instance!(c04_store_r1_fits, 152, 256, 17, false);
@@ -137,20 +157,22 @@ store_instance!(c04_store_r4_exact, 152, 256, 100, false);
 //@ timeout: 900
 //@ mem: 12
 //@ covers: none
-//@ unwindset: mmap_append=170
+//@ unwindset: mmap_append=170; memcmp.0=20
+//@ cbmc: --max-field-sensitivity-array-size 800
 //@ encodes: EventStore::new (creation path), EventStore::store_event
-//@ bounds: no file yet: new() creates it with one chunk (2048 bytes in the dev profile) and end marker 8; the first arbitrary 152-byte event is stored at offset 8 and reads back identical
+//@ bounds: no file yet: new() creates it with one chunk (256 bytes under the verification hook; 2048 in dev builds) and end marker 8; the first arbitrary 152-byte event is stored at offset 8 and reads back identical
 #[kani::proof]
-#[kani::unwind(20)]
+#[kani::unwind(4)]
 #[kani::stub(core::panic::Location::caller, stub_caller)]
 #[kani::stub(<std::io::Error as std::fmt::Display>::fmt, stub_io_error_fmt)]
+#[kani::stub(<std::io::Error as std::string::ToString>::to_string, stub_io_to_string)]
 #[kani::stub(std::fs::File::set_len, stub_set_len)]
 #[kani::stub(std::fs::OpenOptions::open, stub_open)]
 #[kani::stub(std::fs::File::metadata, stub_metadata)]
 #[kani::stub(std::fs::Metadata::len, stub_metadata_len)]
 fn c04_create_fresh() {
     let store = ok!(EventStore::new("/s/event.map"));
-    assert!(mmap_append::verif::file().exists && mmap_append::verif::file().len == 2048);
+    assert!(mmap_append::verif::file_exists() && mmap_append::verif::file_len() == 256);
     assert!(store.read_event_map_end() == 8);
     let mut buf: [u8; 152] = kani::any();
     let ev = any_event::<152>(&mut buf);
@@ -162,3 +184,79 @@ fn c04_create_fresh() {
     assert!(got.as_bytes()[k] == buf[k]);
     core::mem::forget(store);
 }
+
+
+/// history-based instances: from a fresh store, two or three arbitrary events of the given sizes
+fn stores_from_fresh<const A: usize, const B: usize>(third: bool) {
+    let store = super::verif_es_helper::fresh_event_store();
+    let mut ba: [u8; A] = kani::any();
+    let ea = any_event::<A>(&mut ba);
+    let oa = ok!(store.store_event(ea));
+    assert!(oa == 8);
+    let mut bb: [u8; B] = kani::any();
+    let eb = any_event::<B>(&mut bb);
+    let ob = ok!(store.store_event(eb));
+    let aligned = (8 + A + 7) / 8 * 8;
+    assert!(ob == aligned);
+    assert!(store.read_event_map_end() == ob + B);
+    assert!(mmap_append::verif::file_len() >= ob + B);
+    let ga = ok!(unsafe { store.get_event_by_offset(oa) });
+    let gb = ok!(unsafe { store.get_event_by_offset(ob) });
+    assert!(ga.as_bytes().len() == A && gb.as_bytes().len() == B);
+    let k: usize = kani::any();
+    kani::assume(k < A && k < B);
+    kani::cover!(k == 151);
+    assert!(ga.as_bytes()[k] == ba[k]);
+    assert!(gb.as_bytes()[k] == bb[k]);
+    if third {
+        let mut bc: [u8; 152] = kani::any();
+        let ec = any_event::<152>(&mut bc);
+        let oc = ok!(store.store_event(ec));
+        assert!(oc == (ob + B + 7) / 8 * 8 && oc > ob);
+        let ga2 = ok!(unsafe { store.get_event_by_offset(oa) });
+        let gc = ok!(unsafe { store.get_event_by_offset(oc) });
+        assert!(ga2.as_bytes()[k] == ba[k]);
+        assert!(gc.as_bytes()[k] == bc[k]);
+    }
+    core::mem::forget(store);
+}
+
+macro_rules! history_instance {
+    ($name:ident, $A:expr, $B:expr, $third:expr) => {
+        #[kani::proof]
+        #[kani::unwind(4)]
+        #[kani::stub(core::panic::Location::caller, stub_caller)]
+        #[kani::stub(<std::io::Error as std::fmt::Display>::fmt, stub_io_error_fmt)]
+        #[kani::stub(<std::io::Error as std::string::ToString>::to_string, stub_io_to_string)]
+        #[kani::stub(std::fs::File::set_len, stub_set_len)]
+        #[kani::stub(std::fs::OpenOptions::open, stub_open)]
+        #[kani::stub(std::fs::File::metadata, stub_metadata)]
+        #[kani::stub(std::fs::Metadata::len, stub_metadata_len)]
+        fn $name() {
+            stores_from_fresh::<$A, $B>($third);
+        }
+    };
+}
+
+//@ harness: c04_history_152_152 c04_history_153_152 c04_history_157_160
+//@ tier: quick
+//@ timeout: 1500
+//@ mem: 14
+//@ unwindset: mmap_append=170; memcmp.0=20
+//@ cbmc: --max-field-sensitivity-array-size 800
+//@ encodes: EventStore::store_event (alignment padding, file growth + remap, retry loop), EventStore::get_event_by_offset
+//@ bounds: from a fresh store (one 256-byte chunk under the hook), two arbitrary events of the sizes named by the harness: the second one needs alignment padding of 0/7/3 bytes and does not fit, so the file grows by a chunk and the mapping moves; offsets are 8 and the aligned end, both events read back byte-identical after the growth
+//@ outside: event sizes other than the instances; more than one growth step
+history_instance!(c04_history_152_152, 152, 152, false);
+history_instance!(c04_history_153_152, 153, 152, false);
+history_instance!(c04_history_157_160, 157, 160, false);
+
+//@ harness: c04_history_three
+//@ tier: thorough
+//@ timeout: 2400
+//@ mem: 16
+//@ unwindset: mmap_append=170; memcmp.0=20
+//@ cbmc: --max-field-sensitivity-array-size 800
+//@ encodes: EventStore::store_event, EventStore::get_event_by_offset
+//@ bounds: three arbitrary events (153, 152, 152 bytes): the third fits after the growth; the first still reads back identical, offsets strictly increase
+history_instance!(c04_history_three, 153, 152, true);
